@@ -325,10 +325,14 @@ type violRec struct {
 func runCheck(spec Spec, tier string) int {
 	t0 := time.Now()
 	seed := rec.Seed()
-	logDir := filepath.Join(verifDir, "evidence", "logs", spec.ID+"-"+tier)
+	// VERIF_EVIDENCE_DIR: development scripts that run checks against a deliberately broken tree
+	// (try_seed.sh, kill_matrix.sh) write their evidence elsewhere so that /verif/evidence only ever
+	// holds what the checks observed on /repo itself
+	evDir := envOr("VERIF_EVIDENCE_DIR", filepath.Join(verifDir, "evidence"))
+	logDir := filepath.Join(evDir, "logs", spec.ID+"-"+tier)
 	os.RemoveAll(logDir)
 	os.MkdirAll(logDir, 0o755)
-	evPath := filepath.Join(verifDir, "evidence", spec.ID+".json")
+	evPath := filepath.Join(evDir, spec.ID+".json")
 
 	bin, err := build(spec)
 	if err != nil {
@@ -373,7 +377,7 @@ func runCheck(spec Spec, tier string) int {
 	agg := aggregate(spec, children, logDir)
 
 	findings := loadFindings()
-	replayDir := filepath.Join(verifDir, "evidence", "replay")
+	replayDir := filepath.Join(evDir, "replay")
 	os.MkdirAll(replayDir, 0o755)
 	// classify
 	knownSeen := map[string]int{}
